@@ -4,6 +4,7 @@ import (
 	"bytes"
 	"encoding/binary"
 	"fmt"
+	"github.com/cockroachdb/apd/v2"
 	"math"
 	"math/big"
 	"strings"
@@ -41,6 +42,9 @@ type C24Case struct {
 	// Prefix: the literal is the second element of a list whose first element is this text (a value must
 	// decode to the same thing whatever was decoded before it)
 	Prefix string `json:"prefix,omitempty"`
+	// OrReject (dec with an exponent at the edge of the 32-bit range): the decoder may refuse the literal; if it
+	// accepts it, the value must be the one written (compared as coefficient and exponent, not as a fraction)
+	OrReject bool `json:"or_reject,omitempty"`
 }
 
 func (c *C24Case) trait(s string) { c.Traits = append(c.Traits, s) }
@@ -145,11 +149,25 @@ func genC24Dec(t *rapid.T, c *C24Case) {
 			frac += string(rune('0' + rapid.IntRange(0, 9).Draw(t, "fd")))
 		}
 	}
+	if rapid.IntRange(0, 11).Draw(t, "zeroform") == 0 {
+		// zero written with many digits (the sign of a negative zero must survive whichever path reads it)
+		ip = big.NewInt(0)
+		intDigits = strings.Repeat("0", rapid.IntRange(1, 3).Draw(t, "zi"))
+		if form != 1 {
+			frac = strings.Repeat("0", rapid.IntRange(1, 30).Draw(t, "zf"))
+		}
+		c.trait("zero-with-many-digits")
+	}
 	exp := int64(0)
 	expText := ""
 	if form != 0 {
 		c.trait("exponent")
 		exp = int64(rapid.IntRange(-400, 400).Draw(t, "exp"))
+		if rapid.IntRange(0, 9).Draw(t, "edgeexp") == 0 {
+			exp = rapid.SampledFrom([]int64{2147483647, 2147483646, 2147483640, -2147483640, -2147483646, -2147483647, -2147483648, 100000, -100000, 99999, -99999, 2147483648, -2147483649}).Draw(t, "edge")
+			c.OrReject = true
+			c.trait("exponent-at-the-32-bit-edge")
+		}
 		e := "e"
 		if rapid.Bool().Draw(t, "E") {
 			e = "E"
@@ -489,6 +507,12 @@ func genC24String(t *rapid.T, c *C24Case) {
 		}
 		want = utf8.AppendRune(want, ch.r)
 	}
+	if rapid.IntRange(0, 14).Draw(t, "badcp") == 0 {
+		// a code point escape that names no character: surrogates and values beyond U+10FFFF
+		sb.WriteString("\\[" + rapid.SampledFrom([]string{"d800", "dfff", "D8AB", "dc00", "110000", "ffffff", "7fffffff"}).Draw(t, "badcpv") + "]")
+		c.Reject = true
+		c.trait("invalid-codepoint-escape")
+	}
 	form := rapid.IntRange(0, 8).Draw(t, "sform")
 	switch form {
 	case 0:
@@ -515,6 +539,38 @@ func genC24String(t *rapid.T, c *C24Case) {
 		want = []byte{}
 	}
 	c.Bytes = want
+}
+
+// c24CoeffExp returns coefficient and decimal exponent of a numeric event.
+func c24CoeffExp(e *ev.Event) (*big.Int, int64, bool) {
+	switch e.K {
+	case ev.Int:
+		return big.NewInt(e.I), 0, true
+	case ev.PInt:
+		return new(big.Int).SetUint64(e.U), 0, true
+	case ev.NInt:
+		return new(big.Int).Neg(new(big.Int).SetUint64(e.U)), 0, true
+	case ev.BigInt:
+		if e.Big == nil {
+			return nil, 0, false
+		}
+		return e.Big, 0, true
+	case ev.DFloat:
+		if e.DF.IsSpecial() && !e.DF.IsZero() {
+			return nil, 0, false
+		}
+		return big.NewInt(e.DF.Coefficient), int64(e.DF.Exponent), true
+	case ev.BigDFloat:
+		if e.BDF == nil || e.BDF.Form != apd.Finite {
+			return nil, 0, false
+		}
+		cf := new(big.Int).Set(&e.BDF.Coeff)
+		if e.BDF.Negative {
+			cf.Neg(cf)
+		}
+		return cf, int64(e.BDF.Exponent), true
+	}
+	return nil, 0, false
 }
 
 func ratFromCase(c *C24Case) *big.Rat {
@@ -580,8 +636,12 @@ func init() {
 			}
 			if c.Reject {
 				if err == nil {
-					return fmt.Errorf("literal %q has an element outside the range of its element type but was accepted: %s", c.Text, ev.ListString(evs))
+					return fmt.Errorf("literal %q has an element outside the range of its element type (or an escape that names no character) but was accepted: %s", c.Text, ev.ListString(evs))
 				}
+				return nil
+			}
+			if err != nil && c.OrReject {
+				ctx.Label("edge exponent: rejected")
 				return nil
 			}
 			if err != nil {
@@ -610,6 +670,37 @@ func init() {
 			case "int", "dec", "hex":
 				if got.Kind != canon.KNum {
 					return bad("a number")
+				}
+				if c.OrReject {
+					// exponents of billions: compare coefficient and exponent after stripping trailing zeros
+					ctx.Label("edge exponent: accepted")
+					wc, _ := new(big.Int).SetString(c.Int, 10)
+					we := c.Exp
+					gc, ge, ok := c24CoeffExp(&evs[2])
+					if !ok {
+						return bad("a decimal float")
+					}
+					norm := func(cf *big.Int, e int64) (*big.Int, int64) {
+						cf = new(big.Int).Set(cf)
+						ten, rem := big.NewInt(10), new(big.Int)
+						for cf.Sign() != 0 {
+							q, r := new(big.Int).QuoRem(cf, ten, rem)
+							if r.Sign() != 0 {
+								break
+							}
+							cf, e = q, e+1
+						}
+						return cf, e
+					}
+					wc, we = norm(wc, we)
+					gc, ge = norm(gc, ge)
+					if wc.Sign() != 0 && (wc.Cmp(gc) != 0 || we != ge) {
+						return bad(fmt.Sprintf("%s x 10^%d", wc, we))
+					}
+					if wc.Sign() == 0 && gc.Sign() != 0 {
+						return bad("zero")
+					}
+					return nil
 				}
 				want := ratFromCase(c)
 				if want.Sign() == 0 {
